@@ -1,4 +1,5 @@
 import Verif.Lemmas.C07
+import Verif.Lemmas.C07Sem
 /-! # C07 — Rewriting stages change exactly what LogQL says they change
 
 Theorems over `LogQL.Stage.apply` for label_format / line_format / drop / keep / decolorize (tied to the code by the C07 correspondence, which evaluates *query text*, so the parser's choice of rename source and target is part of what is compared).  Templates and the ANSI matcher are reached through `Env`. -/
@@ -110,6 +111,35 @@ theorem C07_stripAll_some :
       env.reFind env.ansi s = some (a, b) →
         a < b → stripAll env (fuel + 1) s = List.take a s ++ stripAll env fuel (List.drop b s) :=
   @stripAll_some
+
+
+/-! ## `decolorize` against the language of the ANSI expression (hand-added)
+
+`C07Sem.Stripped r s out`: `out` is `s` with non-empty words of the language of `r` cut out — each the
+leftmost one of what is left (`NoneBefore`) — until the rest contains none.  `ExecEnv.ansi` is the
+expression of `decolorize.go`, `ExecEnv.env` the environment the correspondence runs. -/
+
+/-- **C07 (decolorize)**: ANSI sequences, and nothing else, are removed -/
+theorem C07_decolorize_strips_ansi (ts : Int) (seen : Seen) (a : LogQL.Acc) :
+    ∃ line', (Stage.apply ExecEnv.env ts Stage.decolorize seen a).fst = some { a with line := line' } ∧
+      C07Sem.Stripped ExecEnv.ansi a.line line' :=
+  C07Sem.decolorize_strips_ansi ts seen a
+
+/-- …so nothing is added or reordered -/
+theorem C07_decolorize_sublist (ts : Int) (seen : Seen) (a : LogQL.Acc) :
+    ∃ line', (Stage.apply ExecEnv.env ts Stage.decolorize seen a).fst = some { a with line := line' } ∧
+      line'.Sublist a.line := by
+  obtain ⟨l, h1, h2⟩ := C07Sem.decolorize_strips_ansi ts seen a
+  exact ⟨l, h1, h2.sublist⟩
+
+/-- every ANSI sequence is non-empty (the loop of `stripAll` always makes progress) -/
+theorem C07_ansi_no_empty_word : C07Sem.NoEmptyWord ExecEnv.ansi := C07Sem.ansi_noEmptyWord
+
+/-- the reported span of the leftmost-match search starts where the first match of the expression starts -/
+theorem C07_search_leftmost (r : Regex.Re) (s : List Nat) (a b : Nat) (caps : Regex.Caps)
+    (h : Regex.searchFrom r (Regex.fuelFor r s) (s.length + 1) s 0 = some (a, b, caps))
+    (pre mid post : List Nat) (hs : s = pre ++ mid ++ post) (hm : Regex.Matches r pre.length mid post) :
+    a ≤ pre.length := RegexLeft.search_leftmost r s a b caps h pre mid post hs hm
 
 
 end LogQL.C07
